@@ -269,7 +269,7 @@ impl Engine for C17 {
         let inputs = sb.fresh("c17_in");
         let loc = sb.fresh("c17_loc");
         let fresh = sb.fresh("c17_fresh");
-        let steps = max_steps(&case.tier);
+        let steps = steps_for(case);
         let sub = case.p_str("sub");
         out.probe(&format!("sub_{sub}"), 1);
         // earlier runs of the history
